@@ -1,8 +1,8 @@
 (* C12 — the scanner reports exactly the lexemes that are in the text.
    Statements only; proofs in Proofs/C12Proofs.v.  PARTIAL: the unbounded well-formedness
-   statement (S1/S4 of DESIGN.md) is not proved; what is proved for all inputs is listed
-   below, the rest is covered by the per-Next() correspondence and the exactness runs. *)
-From JS Require Import Base Bytes Scanner ScanRun C12Proofs.
+   statement about lexeme EXTENTS (begin <= end, inside the file) is not proved; what is proved
+   for all inputs is listed below (well-bracketed events, event tables, offsets), the rest is covered by the per-Next() correspondence and the exactness runs. *)
+From JS Require Import Base Bytes Scanner ScanRun C12Proofs EventSafe.
 From JS Require LexemeEvents ScannerProg.
 Open Scope Z_scope.
 
@@ -28,6 +28,28 @@ Theorem C12_lexeme_from_events :
         c_estack cf' = c_estack cf /\ LexemeEvents.ev_ToLexemeType (fst ev) = Some (lk l)).
 Proof. exact lexeme_from_events. Qed.
 
+(* for EVERY input, every oracle answer and any number of Next() calls: the lexeme events are well
+   bracketed - processing the queued events never pops an empty event stack and never meets an
+   event without a lexeme type; with C12_lexeme_from_events: every lexeme the scanner returns
+   comes from a Begin event and the matching End event of its own kind, in the order the step
+   functions found them.  (The pending-Begin stack of every state is inferred from the
+   regenerated program, checked by symbolic execution of every path, and the checker is proved
+   sound against the interpreter, including the lazily drained event queue and end of file.) *)
+Theorem C12_lexeme_events_are_well_bracketed :
+  forall data tbl fuel,
+    let '(_, e, _) := lex_traj data tbl fuel (init_conf ScannerProg.initial_state) in
+    e <> EndPanic PEventStackEmpty /\ e <> EndPanic PLexemeType.
+Proof. exact lexeme_events_are_well_bracketed. Qed.
+
+(* ... and in every configuration the scanner can reach, the next queued event is processed
+   successfully (never the "Ending lexeme event does not match beginning event" error) *)
+Theorem C12_queued_events_always_process :
+  forall cf ev fs e,
+    c_finds cf = ev :: fs -> eff cf = Some e ->
+    exists o cf', process_event (set_finds cf fs) ev = ROk (o, cf') /\ eff cf' = Some e /\
+                  c_step cf' = c_step cf /\ c_sstack cf' = c_sstack cf /\ c_cur cf' = c_cur cf /\ c_finds cf' = fs.
+Proof. exact process_event_eff. Qed.
+
 (* regression for finding F2 (fixed in /repo): "GET /a /*/" is an error, not an annotation
    lexeme with end before begin *)
 Theorem C12_f2_regression :
@@ -35,6 +57,8 @@ Theorem C12_f2_regression :
   match snd (fst (scan_case f2_input [])) with EndErr _ => true | _ => false end = true.
 Proof. exact f2_regression. Qed.
 
+Print Assumptions C12_lexeme_events_are_well_bracketed.
+Print Assumptions C12_queued_events_always_process.
 Print Assumptions C12_event_offsets_partial.
 Print Assumptions C12_event_tables.
 Print Assumptions C12_lexeme_from_events.
